@@ -418,6 +418,47 @@ def rule_v1(chk: Check, ix: Index):
                  f"after substituting the flag and erasing print-only statements the verbose and non-verbose versions of `{q}` are "
                  f"different programs: non-verbose has `{diff[0].strip()[:70]}` where verbose has `{diff[1].strip()[:70]}` — turning "
                  f"tracing on changes what the parser does{extra}")
+    # code that runs only for the trace must not be able to raise on its own: (a) a `finally` that reads a local first bound inside
+    # its `try` body (unbound when the body raised), (b) `%`-formatting whose format string is built from data
+    for q, g in sorted(ix.funcs.items()):
+        if g.rel not in (repo.SUBHEADER, repo.TOKENIZER):
+            continue
+        for t in [n for n in own_nodes(g.node) if isinstance(n, ast.Try) and n.finalbody]:
+            bound_in_try = {x.id for b in t.body for x in ast.walk(b) if isinstance(x, ast.Name) and isinstance(x.ctx, ast.Store)}
+            # definitely bound before the try: simple statements that precede it in its own block or in an enclosing one
+            bound_before = {a.arg for a in g.node.args.args + g.node.args.kwonlyargs}
+            if g.node.args.vararg:
+                bound_before.add(g.node.args.vararg.arg)
+
+            def chain(block, target):
+                for i, st in enumerate(block):
+                    if st is target:
+                        return [block[:i]]
+                    for fld in ("body", "orelse", "finalbody"):
+                        sub = getattr(st, fld, None)
+                        if isinstance(sub, list) and sub and isinstance(sub[0], ast.stmt):
+                            r = chain(sub, target)
+                            if r is not None:
+                                return [block[:i]] + r
+                return None
+
+            for pre in chain(g.node.body, t) or []:
+                for st in pre:
+                    if isinstance(st, (ast.Assign, ast.AugAssign, ast.AnnAssign, ast.Expr, ast.Import, ast.ImportFrom)):
+                        bound_before |= {x.id for x in ast.walk(st) if isinstance(x, ast.Name) and isinstance(x.ctx, ast.Store)}
+            read_in_final = {x.id for b in t.finalbody for x in ast.walk(b) if isinstance(x, ast.Name) and isinstance(x.ctx, ast.Load)}
+            risky = sorted((bound_in_try - bound_before) & read_in_final)
+            chk.count("V1-verbose-erasure")
+            chk.require(not risky, "V1-verbose-erasure", f"{q}:finally-reads:{','.join(risky)}", f"{g.rel}:{t.lineno}",
+                        f"the `finally` block reads {risky}, first bound inside the `try` body: when the body raises the name is unbound and "
+                        f"an UnboundLocalError replaces the real error (only with verbose=True if the read is in the trace)")
+        for n in own_nodes(g.node):
+            if isinstance(n, ast.BinOp) and isinstance(n.op, ast.Mod) and isinstance(n.left, ast.JoinedStr) and \
+                    any(isinstance(v, ast.FormattedValue) for v in n.left.values):
+                chk.count("V1-verbose-erasure")
+                chk.fail("V1-verbose-erasure", f"{q}:format-from-data", f"{g.rel}:{n.lineno}",
+                         f"`{norm_stmt(n)[:70]}` uses a format string that contains interpolated data: a `%` in a token's text makes the "
+                         f"trace raise TypeError/ValueError, so verbose=True changes the outcome of the parse")
     # helpers that erased log statements are allowed to call must themselves be transparent: they look, format and return;
     # they do not catch exceptions (an error swallowed in the trace surfaces later in a different form), write state or loop
     for q in ("Parser.showpeek",):
